@@ -50,7 +50,7 @@ ASSUME_TRIE = [
     "hashing (keccak) is injective on the inputs used: the specification models a node's hash as its canonical subtree",
     "the trie DB is a MemoryDB behind NewTrieStorageManagerWithoutPruning (no pruning, no snapshots); GogoProtoMarshalizer",
     "values are 1..3 bytes long (value v = v bytes v); keys are 0..4 bytes (32 bytes in some recorded traces)",
-    "one trie instance at a time per history: Recreate replaces the current instance (all instances share the DB)",
+    "several live trie instances over one storage are interleaved call by call (no goroutine concurrency)",
     "bounds of the exhaustive runs: see `rule`",
 ]
 
